@@ -20,8 +20,6 @@ type RelayAddressGeneratorNone struct {
 	Address string
 
 	Net transport.Net
-
-	listenerPorts relayListenerPorts
 }
 
 // Validate is called on server startup and confirms the RelayAddressGenerator is properly configured.
@@ -78,7 +76,7 @@ func (r *RelayAddressGeneratorNone) AllocateListener(conf AllocateListenerConfig
 		// bind to the same relay address.
 		Control: reuseport.Control,
 	})
-	ln, err := r.listenerPorts.listen(conf.RequestedPort, func() (net.Listener, error) {
+	ln, err := liveRelayListeners.listen(tcpAddr.IP, conf.RequestedPort, func() (net.Listener, error) {
 		return listenConfig.Listen(context.TODO(), conf.Network, tcpAddr.String())
 	})
 	if err != nil {
